@@ -1,6 +1,6 @@
 // C09 (b): the power-of-ten kernel behind a Real result, alone:  Digit::powerOfNegativeTen(number, KE)  must return the bits of a
-// double within ONE unit in the last place of  number / 10^KE  for EVERY 64-bit mantissa `number` != 0 (the solver decides over it);
-// the decimal exponent KE is concrete per query (1 <= KE <= 19: one big-integer multiply by the 128-bit reciprocal of 5^KE, the shift, the
+// double within ONE unit in the last place of  number / 10^KE  for every mantissa `number` of a 2^16-wide window (the solver decides over it);
+// the decimal exponent KE and the window (see KJ) are concrete per query (1 <= KE <= 19: one big-integer multiply by the 128-bit reciprocal of 5^KE, the shift, the
 // final round-to-53-bits and the carry into the exponent).  Oracle: exact integer arithmetic in 128 bits, no floating point.
 #include "Digit.hpp"
 #include "vf.h"
@@ -10,25 +10,25 @@ typedef unsigned __int128 u128;
 #ifndef KE
 #define KE 16
 #endif
-#ifndef NBITS
-#define NBITS 64      /* mantissas below 2^NBITS */
+#ifndef KJ
+#define KJ 1          /* window: mantissas within 2^15 of 2^KJ * 10^KE, i.e. quotients around the power of two 2^KJ (where rounding to 53 bits carries into the exponent) */
 #endif
-static u128 pow10_(unsigned e) { u128 r = 1; for (unsigned i = 0; i < e; i++) r *= 10u; return r; }
+static constexpr u128 pow10_(unsigned e) { u128 r = 1; for (unsigned i = 0; i < e; i++) r *= 10u; return r; }
 static unsigned bitlen(u64 x) { unsigned n = 0; while (x != 0) { ++n; x >>= 1; } return n; }
 
 extern "C" void h_p10neg() {
-    u64 n = vf_u64();
-    vf_assume(n != 0);
-#if NBITS < 64
-    vf_assume(n < (1ULL << NBITS));
-#endif
+    constexpr u128 P = pow10_(KE);
+    constexpr u128 BASE128 = P << KJ;
+    static_assert(BASE128 < (u128(1) << 64) - 65536u, "window must fit 64 bits");
+    constexpr u64 BASE = u64(BASE128);
+    const u64 off = vf_u16();
+    const u64 n = BASE - 32768u + off;
     u64 bits = n;
     Digit::powerOfNegativeTen(bits, SizeT32{KE});
     const unsigned be = unsigned(bits >> 52);                 // biased exponent (the kernel never sets a sign)
     const u64 M = (bits & 0xFFFFFFFFFFFFFULL) | (1ULL << 52); // 53-bit significand
     vf_assert(be >= 1 && be <= 2046, 1);                      // n / 10^KE with n < 2^64, KE <= 19 is a normal double
     const int s = int(be) - 1075;                             // value = M * 2^s
-    const u128 P = pow10_(KE);
     // |n - M * 2^s * 10^KE| <= 2^s * 10^KE     (one unit in the last place = 2^s)
     if (s >= 0) {
         vf_assert(s <= 11, 2);                                // n < 2^64
